@@ -241,6 +241,48 @@ def l2(facts, tier):
                             yield ob(["C16"], "L2", key, "violation", where(f, x),
                                      f"{pv} (runs arbitrary implementation code, which may create connections) is issued while {lk} is held: "
                                      f"re-entrant acquisition deadlocks")
+    # destructors of locals declared while a cache guard is live run before that guard is released (reverse declaration order),
+    # on every exit of the scope including `?`
+    drop_impls = {}
+    for g in lm.local.values():
+        im = g.get("impl") or {}
+        if im.get("trait") in ("core::ops::drop::Drop", "std::ops::Drop") and g["crate"] == "savefile_abi":
+            drop_impls[im.get("self_ty", "").split("<")[0]] = g
+    for fid, f in sorted(lm.local.items()):
+        if f["crate"] != "savefile_abi":
+            continue
+        for lk, node, region, var in lm.held_regions(f):
+            if var is None:
+                continue
+            for r in region:
+                if r.get("k") != "LetS" or r["pat"].get("k") != "Bind":
+                    continue
+                ty = (r["pat"].get("ty") or (r.get("init") or {}).get("ty") or "").split("<")[0]
+                d = drop_impls.get(ty)
+                if d is None:
+                    continue
+                msgs = []
+                todo, seen_ = [d], set()
+                while todo:
+                    g = todo.pop()
+                    if g["id"] in seen_:
+                        continue
+                    seen_.add(g["id"])
+                    for y in walk(g["body"]):
+                        if y.get("k") == "Call":
+                            if isinstance(y.get("fun"), dict):
+                                msgs.append(proto_variant(y) or "an indirect call")
+                            t = target_of(y)
+                            if t in lm.local:
+                                todo.append(lm.local[t])
+                acq = lm.acquires(d["id"])
+                bad = [m for m in msgs if m not in ALLOWED_UNDER_LOCK] or sorted(acq)
+                key = f"drop-under-lock:{fid}:{lk.split('::')[-1]}:{ty.split('::')[-1]}"
+                yield ob(["C16"], "L2", key, "violation" if bad else "pass", where(f, r),
+                         f"`{r['pat']['v'].split('#')[0]}: {ty.split('::')[-1]}` is declared while {lk} is held and its destructor is harmless" if not bad else
+                         f"`{r['pat']['v'].split('#')[0]}: {ty.split('::')[-1]}` is declared after the guard of {lk}, so on every exit of the scope its "
+                         f"destructor runs while the lock is still held, and that destructor issues {bad[0]} (implementation code, which may "
+                         f"create connections or take application locks): deadlock")
     # negotiation / instantiation messages sent with no cache guard live (nothing to deadlock on)
     under = set()
     for fid, f in lm.local.items():
